@@ -71,13 +71,6 @@ Definition json_has (jt : list jentry) (path : list bstr) (k : okind) (choices :
   existsb (fun j => blist_eqb (je_path j) path && jkind_eqb (je_kind j) (JScalar k) && otarget_eqb (je_target j) tg &&
                     match choices with Some c => blist_eqb (je_choices j) c | None => true end) jt.
 
-Definition match_json_gen (strict : bool) (jt : list jentry) (e : aentry) : bool :=
-  let ps := table_paths (ae_table e) in
-  negb (match ps with [] => true | _ => false end) &&
-  forallb (fun base => json_has jt (json_path_of (ae_table e) (ae_flag e) base) (json_kind_of (ae_kind e))
-                                (if strict then Some (ae_choices e) else None) (ae_target e)) ps.
-Definition match_json := match_json_gen true.
-
 (* one JSON scalar entry against the argv table *)
 Definition match_argv (at_ : list aentry) (j : jentry) : bool :=
   existsb (fun e => is_config (ae_target e) && otarget_eqb (ae_target e) (je_target j) &&
@@ -122,6 +115,16 @@ Definition manual_expected : list (bstr * bstr * list (list bstr * jkind)) :=
 
 Definition jnode_has (jt : list jentry) (pk : list bstr * jkind) : bool :=
   existsb (fun j => blist_eqb (je_path j) (fst pk) && jkind_eqb (je_kind j) (snd pk)) jt.
+
+Definition match_json_gen (strict : bool) (jt : list jentry) (e : aentry) : bool :=
+  let ps := table_paths (ae_table e) in
+  negb (match ps with [] => true | _ => false end) &&
+  forallb (fun base => json_has jt (json_path_of (ae_table e) (ae_flag e) base) (json_kind_of (ae_kind e))
+                                (if strict then Some (ae_choices e) else None) (ae_target e)
+                       (* or: the JSON side of this flag is one of the listed hand-written handlers (setupPassword, setupPagesFile, ...) *)
+                       || (jnode_has jt (json_path_of (ae_table e) (ae_flag e) base, JManual) &&
+                           existsb (fun x => bstr_eqb (fst (fst x)) (ae_table e) && bstr_eqb (snd (fst x)) (ae_flag e)) manual_expected)) ps.
+Definition match_json := match_json_gen true.
 
 Definition expected_nodes : list (list bstr * jkind) := flat_map (fun x => snd x) manual_expected.
 
